@@ -173,7 +173,7 @@ theorem tinv_step {s s' : St} {l : Label} (hi : TInv s) (h : step s l = some s')
             · -- a hanging connect cannot end without an interrupt
               simp [fanGuard, hint, connReady, hc] at hg
           | destroyBegin =>
-            have hfin : (s.host k).ph = .finished := by simpa [fanGuard] using hg
+            have hfin : (s.host k).ph = .finished := by have := hg; simp [fanGuard] at this; exact this.1
             simp only [localOf, fanLocal, hostStep_other]
             exact ⟨by simp [phOK, FanG.WAct.post, hfin], hho⟩
           | destroyEnd =>
